@@ -99,7 +99,9 @@ pub mod audit {
         }
         let m = MAP.lock().unwrap();
         let hit = m.get(&source_port).copied();
-        super::trace::emit(serde_json::json!({"e": "AuditLookup", "port": source_port, "hit": hit.is_some()}));
+        super::trace::emit(
+            serde_json::json!({"e": "AuditLookup", "port": source_port, "hit": hit.is_some()}),
+        );
         Some(match hit {
             Some(r) => Ok(AuditEntry {
                 logon_id: r.logon_id,
@@ -121,7 +123,9 @@ pub mod audit {
         }
         let mut m = MAP.lock().unwrap();
         let hit = m.remove(&source_port).is_some();
-        super::trace::emit(serde_json::json!({"e": "AuditRemove", "port": source_port, "hit": hit}));
+        super::trace::emit(
+            serde_json::json!({"e": "AuditRemove", "port": source_port, "hit": hit}),
+        );
         Some(Ok(()))
     }
 }
@@ -158,7 +162,12 @@ pub mod sched {
 
     /// number of tasks that reached the gate so far (including those let through by `skip`)
     pub fn arrived(label: &str) -> usize {
-        GATES.lock().unwrap().get(label).map(|g| g.arrived).unwrap_or(0)
+        GATES
+            .lock()
+            .unwrap()
+            .get(label)
+            .map(|g| g.arrived)
+            .unwrap_or(0)
     }
 
     /// let one more parked task continue
